@@ -94,7 +94,7 @@ void harness_case(Dec &d, Case &c) {
     KSI_CTX_setAggregator(ctx, uri.c_str(), argLogin, argKey); KSI_CTX_setOption(ctx, KSI_OPT_AGGR_PDU_VER, (void *)(size_t)sc.version); KSI_CTX_setOption(ctx, KSI_OPT_AGGR_HMAC_ALGORITHM, (void *)(size_t)sc.macAlg);
     KSI_DataHash *dh = nullptr; if (KSI_DataHash_fromImprint(ctx, sc.doc.data(), sc.doc.size(), &dh) != KSI_OK) { c.skip("document imprint refused"); return; }
     KSI_Signature *sig = nullptr; int res = KSI_UNKNOWN_ERROR; bool asyncErr = false; int asyncState = -1;
-    if (sc.api == A_SIGN_AGGREGATED) res = KSI_Signature_signAggregated(ctx, dh, sc.level, &sig);
+    if (sc.api == A_SIGN_AGGREGATED) { if (sc.doc[2] & 1) { res = KSI_Signature_createAggregated(ctx, dh, sc.level, &sig); c.cls(sc.level ? "api:deprecated-createAggregated:level>0" : "api:deprecated-createAggregated"); } /* the deprecated but exported spelling of the same call */ else res = KSI_Signature_signAggregated(ctx, dh, sc.level, &sig); }
     else if (sc.api == A_CREATE_SIGNATURE) res = KSI_createSignature(ctx, dh, &sig);
     else if (sc.api == A_SIGN) res = KSI_Signature_sign(ctx, dh, &sig);
     else if (sc.api == A_BLOCK_SIGNER) { // block signing of a single leaf: the request carries the leaf's hash and level
